@@ -85,10 +85,18 @@ def run_cases(ck: Check, n_refine: int, n_storage: int):
             n = 12 * ncand
             grid = CartesianGrid([[0, n], [0, 14]], [n, 14], periodic=[rng.random() < 0.5, False])
             drops = [DiffuseDroplet(np.array([12 * i + 6 + rng.uniform(-1, 1), 7 + rng.uniform(-1, 1)]), rng.uniform(2.5, 4), rng.uniform(0.8, 1.5)) for i in range(ncand)]
+            extra = {}
+            if k % 3 == 2:
+                # a supplied interface width (the candidates are then diffuse droplets already, which the serial path refines IN PLACE while the
+                # workers refine pickled copies) together with droplets cut by the non-periodic edge, whose fit moves far from the candidate
+                extra = {"interface_width": rng.choice([0.9, 1.3])}
+                for j in (0, len(drops) // 2):
+                    drops[j] = DiffuseDroplet(np.array([12 * j + 6.0, rng.choice([-1.5, -0.8, 15.2])]), rng.uniform(4.2, 5.0), rng.uniform(0.8, 1.2))
+                ck.count("supplied_width_and_cut_droplets")
             field = Emulsion(drops).get_phasefield(grid)
             if rng.random() < 0.5:
                 field.data += 0.01 * np.cos(np.arange(field.data.size).reshape(field.data.shape))
-            minr = rng.choice([0, 0, 3.2])
+            minr = rng.choice([0, 0, 3.2]) if not extra else 0
             rargs = None
             if k % 3 == 1:
                 # a single-precision image with automatically determined intensity levels: every process must do the same arithmetic
@@ -96,11 +104,8 @@ def run_cases(ck: Check, n_refine: int, n_storage: int):
                 rargs = {"vmin": None, "vmax": None}
                 ck.count("float32_field_automatic_levels")
             _loc = ia.locate_droplets
-            if rargs is not None:
-                import functools
-                ia_locate = functools.partial(_loc, refine_args=rargs)
-            else:
-                ia_locate = _loc
+            import functools
+            ia_locate = functools.partial(_loc, refine_args=rargs, **extra) if rargs is not None else functools.partial(_loc, **extra)
             serial = ia_locate(field, refine=True, minimal_radius=minr, num_processes=1)
             again = ia_locate(field, refine=True, minimal_radius=minr, num_processes=1)
             case = {"kind": "refine", "candidates": ncand, "minimal_radius": minr, "droplets": [d.data.tolist() for d in drops]}
@@ -117,7 +122,7 @@ def run_cases(ck: Check, n_refine: int, n_storage: int):
                 ck.fail("repeating the analysis after an analysis with other solver settings gives a different result (state leaks between calls)",
                         {"check": "repeat_eq"}, {**case, "in_between": "refine_args with least_squares_params / tolerance"})
             # candidates in the order refine_droplets sees them
-            cands = ia.locate_droplets(field, refine=False, minimal_radius=minr)
+            cands = ia.locate_droplets(field, refine=False, minimal_radius=minr, **extra)
             for procs, kind in [(2, "reversed"), (3, "random"), ("auto", "rotated"), (rng.choice([2, 3, 5]), "random")]:
                 delays = delay_plan(rng, len(cands), kind)
                 _DELAYS.clear()
@@ -126,7 +131,7 @@ def run_cases(ck: Check, n_refine: int, n_storage: int):
                 open(_LOG, "w").close()
                 ia.refine_droplet = delayed_refine
                 try:
-                    par = ia.locate_droplets(field, refine=True, minimal_radius=minr, num_processes=procs, **({"refine_args": rargs} if rargs else {}))
+                    par = ia.locate_droplets(field, refine=True, minimal_radius=minr, num_processes=procs, **({"refine_args": rargs} if rargs else {}), **extra)
                 finally:
                     ia.refine_droplet = _orig_refine
                 order = [int(l.split()[0]) for l in open(_LOG).read().split("\n") if l]
@@ -161,7 +166,8 @@ def run_cases(ck: Check, n_refine: int, n_storage: int):
                                     {"check": "refine_par_eq_ser", "num_processes": str(procs), "candidates": 0}, {**case, "num_processes": procs, "what": what})
         # ---------------- frames of a storage
         for k in range(n_storage):
-            nfr = rng.randint(3, 7)
+            # (also more frames than 4 x workers, not a multiple of it: any batching or windowing of the submitted frames must keep their order)
+            nfr = 11 if k == 0 else rng.randint(3, 7)
             grid = CartesianGrid([[0, 16]] * 2, [16, 16], periodic=rng.random() < 0.5)
             storage = MemoryStorage()
             storage.start_writing(ScalarField(grid))
@@ -223,7 +229,7 @@ def replay(case: dict):
 
 
 def run(ck: Check):
-    ck.rule = ("refinement of 3-13 candidates (incl. more than 4 x workers) and analysis of 3-7 stored frames with num_processes in {1,2,3,5,'auto'} and per-task delays forcing reversed, "
+    ck.rule = ("refinement of 3-13 candidates (incl. more than 4 x workers) and analysis of 3-7 / 11 stored frames (more than 4 x workers) with num_processes in {1,2,3,5,'auto'} and per-task delays forcing reversed, "
                "rotated and random completion orders (observed orders recorded); bitwise, ordered comparison with the serial run; non-trivial = every case")
     ck.assumptions = ["concurrent.futures.ProcessPoolExecutor.map yields results in submission order (stdlib contract, monitored by the bitwise comparison)",
                       "pickling preserves droplet/field values", "fork start method (Linux default)"]
